@@ -19,6 +19,7 @@ def cfg_text(params: dict, invariants=None, emit=True, alphabet='MCAlphabet', em
     inv = list(invariants if invariants is not None else ALL_INVARIANTS)
     lines = ['SPECIFICATION Spec', 'CONSTANTS',
              f'  Alphabet <- {alphabet}',
+             f'  Blocks <- {params.get("blocks_op", "MCNoBlocks")}',
              f'  MaxLen = {params.get("max_len", 3)}',
              f'  AddrBits = {params.get("addr_bits", 16)}',
              f'  Origin = {params.get("origin", 0)}',
@@ -53,10 +54,10 @@ def check_design(module: str, params: dict, invariants=None, alphabet='MCAlphabe
 # ------------------------------------------------------------------ evaluation of one scenario
 
 def build_case(scen: dict, params: dict, pretty='listing') -> tuple[dict, dict]:
-    files, pos = render_prog(scen['prog'])
+    files, pos = render_prog(scen['prog'], join_labels=bool(params.get('join_labels')))
     case = {'config': isa_for(params), 'files': files, 'main': 'main.asm', 'start': params.get('win_start', 0),
             'end': params.get('win_end'), 'fill': params.get('fill', 0), 'pretty': pretty,
-            'include_dirs': [], 'timeout': 10.0}
+            'include_dirs': [], 'timeout': 10.0, 'verbose': params.get('verbose', 0)}
     return case, pos
 
 
